@@ -15,6 +15,7 @@ import OmbottModel.Drv.TsProps
 import OmbottModel.Drv.EnvCache
 import OmbottModel.Drv.Helpers
 import OmbottModel.Drv.RouterListing
+import OmbottModel.Drv.App
 /-! Dispatch of a protocol line to the area handlers.  `State` holds the few models that are
 driven as state machines across lines (router, multipart feed, header store). -/
 namespace Drv
@@ -49,6 +50,7 @@ def step (st : State) (line : String) : State × String :=
     | "envcache" => pure? (EnvCache.handle rest)
     | "helpers" => pure? (Helpers.handle rest)
     | "rlist" => pure? (RouterListing.handle rest)
+    | "app" => pure? (App.handle rest)
     | _ => (st, "bad-op")
 
 end Drv
